@@ -464,7 +464,18 @@ class Interp:
         cache[key] = nd
         return nd
 
-    def call_function(self, fi: FunctionInfo, pos: List[Val], kwargs: Dict[str, Val], node, closure_env=None) -> Val:
+    def _bind_defaults(self, a: ast.arguments, env: dict) -> Dict[str, Val]:
+        """default values are evaluated when the function object is created (`lambda x=x: ...` keeps the x of that moment;
+        a free variable of the body is looked up when the body runs)"""
+        ps = [x.arg for x in a.posonlyargs + a.args]
+        out = {}
+        for name, d in list(zip(ps[len(ps) - len(a.defaults):], a.defaults)) + \
+                [(x.arg, d) for x, d in zip(a.kwonlyargs, a.kw_defaults) if d is not None]:
+            out[name] = self.eval(d, env)
+        return out
+
+    def call_function(self, fi: FunctionInfo, pos: List[Val], kwargs: Dict[str, Val], node, closure_env=None,
+                      default_vals=None) -> Val:
         depth = len(self.frames)
         if depth >= self.cfg.max_depth:
             return self.unknown("inlining-depth", node)
@@ -498,7 +509,9 @@ class Interp:
         try:
             for name, d in list(zip(params, defaults)) + list(kwonly.items()):
                 if name not in env:
-                    if d is None:
+                    if default_vals and name in default_vals:
+                        env[name] = default_vals[name]
+                    elif d is None:
                         env[name] = self.unknown("missing-argument:" + name, node)
                     else:
                         env[name] = self.eval(d, env)
@@ -740,7 +753,9 @@ class Interp:
                     self.assign(item.optional_vars, v, env, st)
             return self.exec_block(st.body, env)
         if isinstance(st, (ast.FunctionDef, ast.AsyncFunctionDef)):
-            env[st.name] = FuncV("local", st, closure=env)
+            fv_ = FuncV("local", st, closure=env)
+            fv_.default_vals = self._bind_defaults(st.args, env)
+            env[st.name] = fv_
             return env
         if isinstance(st, (ast.Pass, ast.Import, ast.ImportFrom, ast.Global, ast.Nonlocal)):
             return env
@@ -2062,7 +2077,9 @@ class Interp:
             return dv
         if isinstance(n, ast.Lambda):
             fr = self.frames[-1]
-            return FuncV("lambda", n, closure=env)
+            fv_ = FuncV("lambda", n, closure=env)
+            fv_.default_vals = self._bind_defaults(n.args, env)
+            return fv_
         if isinstance(n, ast.JoinedStr):
             if len(n.values) == 1 and isinstance(n.values[0], ast.FormattedValue) and n.values[0].format_spec is None \
                     and n.values[0].conversion in (-1, 115):
@@ -2470,11 +2487,11 @@ class Interp:
                 return self.construct(fv.target, pos, kwargs, n)
             if fv.kind == "lambda":
                 fi = FunctionInfo("<lambda>", "<lambda>", fv.target, self.frames[-1].fi.module)
-                return self.call_function(fi, pos, kwargs, n, closure_env=fv.closure)
+                return self.call_function(fi, pos, kwargs, n, closure_env=fv.closure, default_vals=getattr(fv, "default_vals", None))
             if fv.kind == "local":
                 fi = FunctionInfo(f"{self.frames[-1].fi.qualname}.<locals>.{fv.target.name}", fv.target.name, fv.target,
                                   self.frames[-1].fi.module)
-                return self.call_function(fi, pos, kwargs, n, closure_env=fv.closure)
+                return self.call_function(fi, pos, kwargs, n, closure_env=fv.closure, default_vals=getattr(fv, "default_vals", None))
             if fv.kind == "prim":
                 h = self.prims.get(fv.target)
                 # leading parameters passed by keyword are put in their positions (np.dot(a=x, b=y), pairwise_distances(X=, Y=))
